@@ -42,6 +42,13 @@ NumCases == UNION {{<<NumType(w), [k |-> "struct", f |-> <<NumWrapVal(w, x, y), 
                         w \in NumWraps(k), x \in NumV(k), y \in NumV(k)} : k \in NumKinds}
 NumCaseSeq == SetToSeq(NumCases)
 
+\* exported field names of every legal form (a non-ASCII upper-case initial, non-ASCII letters inside, underscore and
+\* digits, one letter), without tag and with a rename, holding a primitive, a list and a pointer to a struct
+OddNames == {"Übrig", "Étage", "Größe", "X_1", "Q", "ÄÖ"}
+NameCases == UNION {{<<TStruct(<<Fld(n, g, "", t), Fld("F1", <<"f1">>, "", T("bool"))>>), [k |-> "struct", f |-> <<x, V("bool", TRUE)>>]>> :
+                        x \in Vals(t)} : n \in OddNames, g \in {<<>>, <<"n">>}, t \in {T("string"), TSlice(T("int64")), TPtr(Inner)}}
+NameCaseSeq == SetToSeq(NameCases)
+
 VARIABLES bk, cs
 vars == <<bk, cs>>
 \* tagkey: the key the type's tags are written under; structtag: the StructTag option ("" = not given)
@@ -62,10 +69,12 @@ Next == /\ cs = <<>> /\ UNCHANGED bk
                  cs' = <<i, val, tc>> /\ PrintT(ToJson(CaseT(TypeSeq[i], val, tc[1], tc[2])))
            \/ \E i \in {j \in 1..Len(NumCaseSeq) : j % 64 = bk} :
                  cs' = <<0, i>> /\ PrintT(ToJson(Case(NumCaseSeq[i][1], NumCaseSeq[i][2])))
+           \/ \E i \in {j \in 1..Len(NameCaseSeq) : j % 64 = bk} :
+                 cs' = <<-1, i>> /\ PrintT(ToJson(Case(NameCaseSeq[i][1], NameCaseSeq[i][2])))
 View == <<bk, cs = <<>> >>
 \* C06 at the model level: the round trip is the identity on the Ideal layer
-CsTy  == IF cs[1] = 0 THEN NumCaseSeq[cs[2]][1] ELSE TypeSeq[cs[1]]
-CsVal == IF cs[1] = 0 THEN NumCaseSeq[cs[2]][2] ELSE cs[2]
+CsTy  == IF cs[1] = 0 THEN NumCaseSeq[cs[2]][1] ELSE IF cs[1] = -1 THEN NameCaseSeq[cs[2]][1] ELSE TypeSeq[cs[1]]
+CsVal == IF cs[1] = 0 THEN NumCaseSeq[cs[2]][2] ELSE IF cs[1] = -1 THEN NameCaseSeq[cs[2]][2] ELSE cs[2]
 CsETy == IF Len(cs) = 3 THEN EffType(CsTy, cs[3][1], cs[3][2]) ELSE CsTy
 Identity == cs # <<>> => RoundTrip({}, CsETy, CsVal) = [ok |-> CsVal]
 \* ... and the packed tree never is a duplicate-key error for a well-formed type
